@@ -410,8 +410,11 @@ class ExtraCoords(ExtraCoordsABC):
             return self._getitem_lookup_tables(item)
 
         # If we get here this object is empty, so just return an empty extra coords
-        # This is done to simplify the slicing in NDCube
-        return self
+        # This is done to simplify the slicing in NDCube.  It is a new object, which the sliced
+        # cube can link to itself, carrying the tables dropped by earlier slicing.
+        new_extra_coords = type(self)()
+        new_extra_coords._dropped_tables = list(self._dropped_tables)
+        return new_extra_coords
 
     @property
     def dropped_world_dimensions(self):
